@@ -2,7 +2,7 @@
 # usage: run.sh [path-to-educe-tree]; exit 0 = every form yields a spanned diagnostic, 1 = the macro panicked
 cd "$(dirname "$0")"; R=${1:-/repo}
 sed -i "s#path = \"[^\"]*\"#path = \"$R\"#" Cargo.toml; cp $R/Cargo.lock . 2>/dev/null || cp /repo/Cargo.lock .
-bad=0
+mkdir -p src; bad=0
 for a in 'Hash{}' 'Hash[]' 'PartialEq{}' 'PartialEq[]'; do
   printf 'use educe::Educe;\n#[derive(Educe)]\n#[educe(%s)]\npub union U { a: u8, b: u8 }\n' "$a" > src/lib.rs
   out=$(cargo check --offline 2>&1)
